@@ -491,9 +491,19 @@ class _Beta(ast.NodeTransformer):
         return c
 
 
+def _const_arith(e):
+    if isinstance(e, ast.Constant):
+        return isinstance(e.value, int) and not isinstance(e.value, bool)
+    if isinstance(e, ast.BinOp) and isinstance(e.op, (ast.LShift, ast.Add, ast.Sub, ast.Mult, ast.Pow, ast.BitOr)):
+        return _const_arith(e.left) and _const_arith(e.right)
+    return False
+
+
 def _const_elt(e):
     if isinstance(e, (ast.Constant, ast.Lambda)):
         return True
+    if isinstance(e, ast.BinOp):
+        return _const_arith(e)          # 1 << 16: integer arithmetic on literals
     if isinstance(e, ast.Tuple):
         return all(_const_elt(x) for x in e.elts)
     return _simple(e) and not isinstance(e, ast.Name)
@@ -562,9 +572,15 @@ class Unroll(object):
                 elif isinstance(s.target, ast.Tuple) and all(isinstance(t, ast.Name) for t in s.target.elts):
                     tnames = [t.id for t in s.target.elts]
                 ok = d is not None and tnames is not None
+                first_match = False
                 if ok:
+                    # `for x in T: if c(x): S; break` (first match wins) is an if / elif chain
+                    if len(s.body) == 1 and isinstance(s.body[0], ast.If) and not s.body[0].orelse and s.body[0].body \
+                            and isinstance(s.body[0].body[-1], ast.Break) \
+                            and sum(1 for n in _walk_own(s.body) if isinstance(n, (ast.Break, ast.Continue))) == 1:
+                        first_match = True
                     for n in _walk_own(s.body):
-                        if isinstance(n, (ast.Break, ast.Continue)):
+                        if isinstance(n, (ast.Break, ast.Continue)) and not first_match:
                             ok = False
                     st = _stores(s.body)
                     if any(t in st for t in tnames):
@@ -584,6 +600,23 @@ class Unroll(object):
                             ok = False
                     if ok and len(tnames) > 1:
                         ok = all(isinstance(x, ast.Tuple) and len(x.elts) == len(tnames) for x in d.elts)
+                if ok and first_match:
+                    chain = None
+                    last = None
+                    for x in d.elts:
+                        m = {tnames[0]: x} if len(tnames) == 1 else dict(zip(tnames, x.elts))
+                        b = copy.deepcopy(s.body[0])
+                        b.body = b.body[:-1] or [ast.copy_location(ast.Pass(), b)]
+                        b = _Beta().visit(_SubstName(m).visit(b))
+                        if chain is None:
+                            chain = b
+                        else:
+                            last.orelse = [b]
+                        last = b
+                    ast.fix_missing_locations(chain)
+                    out.append(chain)
+                    changed = True
+                    continue
                 if ok:
                     for x in d.elts:
                         m = {tnames[0]: x} if len(tnames) == 1 else dict(zip(tnames, x.elts))
@@ -1024,33 +1057,46 @@ def _namedtuples(tree):
 
 
 def scalar_replace(func, tree):
-    """t = NT(a=e1, b=e2) with t used only as t.a / t.b  ->  t__a = e1; t__b = e2 and the field reads renamed (the
-    record only groups values; evaluation order of e1, e2 is kept)."""
+    """t = NT(a=e1, b=e2) (possibly in several branches) with t used only as t.a / t.b  ->  t__a = e1; t__b = e2 and
+    the field reads renamed (the record only groups values; evaluation order of e1, e2 is kept)."""
     nts = _namedtuples(tree)
     if not nts:
         return False
-    st = _stores(func.body)
     changed = False
-    for n in list(_walk_own(func.body)):
-        if not (isinstance(n, ast.Assign) and len(n.targets) == 1 and isinstance(n.targets[0], ast.Name)
-                and isinstance(n.value, ast.Call) and isinstance(n.value.func, ast.Name) and n.value.func.id in nts):
+    cands = {}
+    for n in _walk_own(func.body):
+        if isinstance(n, ast.Assign) and len(n.targets) == 1 and isinstance(n.targets[0], ast.Name) \
+                and isinstance(n.value, ast.Call) and isinstance(n.value.func, ast.Name) and n.value.func.id in nts:
+            cands.setdefault(n.targets[0].id, []).append(n)
+    st = _stores(func.body)
+    params = set(a.arg for a in ast.walk(func.args) if isinstance(a, ast.arg))
+    for t, assigns in cands.items():
+        if t in params or st.get(t) != len(assigns):
             continue
-        t = n.targets[0].id
-        fields = nts[n.value.func.id]
-        if st.get(t) != 1 or any(isinstance(a, ast.Starred) for a in n.value.args) or any(k.arg is None for k in n.value.keywords):
+        ntn = set(a.value.func.id for a in assigns)
+        if len(ntn) != 1:
             continue
-        vals = {}
-        order = []
-        for f_, a in zip(fields, n.value.args):
-            vals[f_] = a
-            order.append(f_)
-        bad = False
-        for k in n.value.keywords:
-            if k.arg not in fields or k.arg in vals:
-                bad = True
-            vals[k.arg] = k.value
-            order.append(k.arg)
-        if bad or set(vals) != set(fields):
+        fields = nts[next(iter(ntn))]
+        plans = []
+        ok = True
+        for n in assigns:
+            if any(isinstance(a, ast.Starred) for a in n.value.args) or any(k.arg is None for k in n.value.keywords):
+                ok = False
+                break
+            vals = {}
+            order = []
+            for f_, a in zip(fields, n.value.args):
+                vals[f_] = a
+                order.append(f_)
+            for k in n.value.keywords:
+                if k.arg not in fields or k.arg in vals:
+                    ok = False
+                vals[k.arg] = k.value
+                order.append(k.arg)
+            if set(vals) != set(fields):
+                ok = False
+            plans.append((n, vals, order))
+        if not ok:
             continue
         par = {}
         for x in ast.walk(func):
@@ -1060,10 +1106,12 @@ def scalar_replace(func, tree):
         if not uses or not all(isinstance(par.get(id(u)), ast.Attribute) and par[id(u)].attr in fields
                                and isinstance(par[id(u)].ctx, ast.Load) for u in uses):
             continue
-        # rewrite
-        new = []
-        for f_ in order:
-            new.append(ast.copy_location(ast.Assign(targets=[ast.Name(id='%s__%s' % (t, f_), ctx=ast.Store())], value=vals[f_]), n))
+        repl = {}
+        for (n, vals, order) in plans:
+            repl[id(n)] = [ast.copy_location(ast.Assign(targets=[ast.Name(id='%s__%s' % (t, f_), ctx=ast.Store())],
+                                                        value=vals[f_]), n) for f_ in order]
+            for a_ in repl[id(n)]:
+                a_._norm = True
 
         class RW(ast.NodeTransformer):
             def visit_Attribute(self, a):
@@ -1072,10 +1120,10 @@ def scalar_replace(func, tree):
                 return self.generic_visit(a)
 
         def blk(stmts, f2):
-            if any(x is n for x in stmts):
+            if any(id(x) in repl for x in stmts):
                 out = []
                 for x in stmts:
-                    out.extend(new if x is n else [x])
+                    out.extend(repl.get(id(x), [x]))
                 return out
             return None
         _Blocks(blk).run(func)
@@ -1169,9 +1217,9 @@ def _temp_forward(stmts, func):
                     loop_bound[x.id] = loop_bound.get(x.id, 0) + 1
 
     def single_use(name, a_stmt):
-        if name.startswith('_inl'):
-            return loads.get(name) == 1
-        if not getattr(a_stmt, '_norm', False):
+        if name.startswith('_inl') and loads.get(name) == 1:
+            return True
+        if not name.startswith('_inl') and not getattr(a_stmt, '_norm', False):
             return False            # only assignments that replace a helper's `return value`
         # every other read of the name gets its value from somewhere else: from a loop binding it, or from an assignment
         # that is the statement just before the reading one
@@ -1458,10 +1506,129 @@ def _functions(tree):
     return out
 
 
+def record_params(modules, log):
+    """def f(self, t) reading only t.a / t.b, every call passing NT(a=.., b=..) built on the spot  ->  the record's fields
+    become the parameters (t__a, t__b) and every call passes the values themselves."""
+    mods = [m for m in modules.values() if not m.name.startswith('examples')]
+    defs = {}
+    for m in mods:
+        for (fn, cls) in _functions(m.tree):
+            defs.setdefault(fn.name, []).append((m, fn, cls))
+    changed = False
+    for name, lst in sorted(defs.items()):
+        if len(lst) != 1 or name.startswith('__'):
+            continue
+        m, fn, cls = lst[0]
+        nts = _namedtuples(m.tree)
+        if not nts or fn.args.vararg or fn.args.kwarg or fn.args.kwonlyargs or fn.decorator_list and not all(
+                isinstance(d, ast.Name) and d.id in ('classmethod', 'staticmethod') for d in fn.decorator_list):
+            continue
+        params = [a.arg for a in fn.args.posonlyargs + fn.args.args]
+        static = any(isinstance(d, ast.Name) and d.id == 'staticmethod' for d in fn.decorator_list)
+        skip = 0 if (cls is None or static) else 1
+        ndef = len(fn.args.defaults)
+        # every mention of the name must be the callee of a call
+        refs = []
+        bad = False
+        for m2 in mods:
+            par = {}
+            for x in ast.walk(m2.tree):
+                for c in ast.iter_child_nodes(x):
+                    par[id(c)] = x
+            for x in ast.walk(m2.tree):
+                hit = (isinstance(x, ast.Attribute) and x.attr == name) or (isinstance(x, ast.Name) and x.id == name)
+                if not hit:
+                    continue
+                pc = par.get(id(x))
+                if isinstance(pc, ast.Call) and pc.func is x and isinstance(x.ctx, ast.Load):
+                    refs.append(pc)
+                else:
+                    bad = True
+            for x in ast.walk(m2.tree):
+                if isinstance(x, ast.Constant) and x.value == name:
+                    bad = True             # getattr(obj, 'name')
+        if bad or not refs:
+            continue
+        for pi in range(skip, len(params)):
+            p_ = params[pi]
+            if pi >= len(params) - ndef:
+                continue
+            if p_ in _stores(fn.body):
+                continue
+            par = {}
+            for x in ast.walk(fn):
+                for c in ast.iter_child_nodes(x):
+                    par[id(c)] = x
+            uses = [x for x in ast.walk(fn) if isinstance(x, ast.Name) and x.id == p_]
+            if not uses or not all(isinstance(par.get(id(u)), ast.Attribute) and isinstance(par[id(u)].ctx, ast.Load)
+                                   for u in uses):
+                continue
+            used = set(par[id(u)].attr for u in uses)
+            cands = [k for k, fl in nts.items() if used <= set(fl)]
+            plans = []
+            ntname = None
+            for c in refs:
+                if any(isinstance(a, ast.Starred) for a in c.args) or any(k.arg is None for k in c.keywords):
+                    plans = None
+                    break
+                ai = pi - skip
+                if ai < len(c.args):
+                    arg, how = c.args[ai], ('pos', ai)
+                else:
+                    kk = [k for k in c.keywords if k.arg == p_]
+                    if not kk:
+                        plans = None
+                        break
+                    arg, how = kk[0].value, ('kw', kk[0])
+                if not (isinstance(arg, ast.Call) and isinstance(arg.func, ast.Name) and arg.func.id in cands
+                        and not arg.keywords and not any(isinstance(a, ast.Starred) for a in arg.args)
+                        and len(arg.args) == len(nts[arg.func.id])):
+                    plans = None
+                    break
+                if ntname not in (None, arg.func.id):
+                    plans = None
+                    break
+                ntname = arg.func.id
+                plans.append((c, arg, how))
+            if not plans:
+                continue
+            fields = nts[ntname]
+            newnames = ['%s__%s' % (p_, f_) for f_ in fields]
+            if any(n_ in params or n_ in _stores(fn.body) for n_ in newnames):
+                continue
+            # definition
+            allargs = fn.args.posonlyargs + fn.args.args
+            target_arg = allargs[pi]
+            lst_ = fn.args.posonlyargs if target_arg in fn.args.posonlyargs else fn.args.args
+            k = lst_.index(target_arg)
+            lst_[k:k + 1] = [ast.copy_location(ast.arg(arg=n_, annotation=None), target_arg) for n_ in newnames]
+
+            class RW(ast.NodeTransformer):
+                def visit_Attribute(self, a):
+                    if isinstance(a.value, ast.Name) and a.value.id == p_ and a.attr in fields:
+                        return ast.copy_location(ast.Name(id='%s__%s' % (p_, a.attr), ctx=ast.Load()), a)
+                    return self.generic_visit(a)
+            fn.body = [RW().visit(b) for b in fn.body]
+            for (c, arg, how) in plans:
+                if how[0] == 'pos':
+                    c.args[how[1]:how[1] + 1] = list(arg.args)
+                else:
+                    k = c.keywords.index(how[1])
+                    c.keywords[k:k + 1] = [ast.keyword(arg=n_, value=v) for n_, v in zip(newnames, arg.args)]
+                ast.fix_missing_locations(c)
+            ast.fix_missing_locations(fn)
+            log.append('record parameter %s of %s.%s replaced by its fields' % (p_, m.name, name))
+            changed = True
+            break
+    return changed
+
+
 def simple_passes(modules, log):
     """One round of the local passes over every function; True when anything changed."""
     changed = False
     _MODS[0] = modules
+    if record_params(modules, log):
+        changed = True
     for m in modules.values():
         if m.name.startswith('examples'):
             continue
